@@ -6,14 +6,14 @@ set -u
 name=$1; src=$2
 export GOFLAGS=-mod=mod GOPROXY=off GOSUMDB=off GOTOOLCHAIN=local
 dst=/verif/seeded/$name; mkdir -p $dst
-demo=$(git -C $src status --short | grep '^??' | grep -v seed_out | awk '{print $2}' | head -1)
+demo=$(git -C $src status --short -uall | grep '^??' | grep -v seed_out | awk '{print $2}' | head -1)
 (cd $src && git diff -- . ':(exclude)seed_out' > $dst/patch.diff)
 cp $src/$demo $dst/demo_test.go.txt
 echo "$demo" > $dst/demo_path.txt
 wt=/tmp/sv-$name; rm -rf $wt; git -C /repo worktree prune; git -C /repo worktree add -q --detach $wt HEAD || exit 2
 pkg=./$(dirname $demo)
 log=$dst/confirm.log; : > $log
-cp $src/$demo $wt/$demo
+mkdir -p $wt/$(dirname $demo); cp $src/$demo $wt/$demo
 (cd $wt && go test -vet=off -count=1 -timeout 20m $pkg) >> $log 2>&1; r0=$?
 echo "DEMO_WITHOUT_PATCH_EXIT=$r0" >> $log
 (cd $wt && git apply $dst/patch.diff) >> $log 2>&1 || echo "PATCH_APPLY_FAILED" >> $log
